@@ -22,7 +22,7 @@ RULE_TEXT = ('runs = seeded random: workload A = (text over an alphabet with 2-/
              'text from literal / file / program). Non-trivial = at least two value-returning accesses (A) or a complete '
              'family (B) were compared; distinct = (workload, source kind, transformer chain, access sequence, buffer '
              'class relative to the text length, character classes present).')
-REACH_PROBES = ['C_one_transformer_many_texts', 'literal_as_here_document', 'A_literal', 'A_file', 'A_program', 'A_varying_program', 'A_freeze_then_access', 'A_access_then_freeze',
+REACH_PROBES = ['C_one_transformer_many_texts', 'B_actual_from_a_program_that_varies', 'literal_as_here_document', 'A_literal', 'A_file', 'A_program', 'A_varying_program', 'A_freeze_then_access', 'A_access_then_freeze',
                 'A_partial_lines', 'A_text_longer_than_buffer', 'A_text_fits_buffer',
                 'A_multibyte', 'A_cr', 'A_unicode_line_separators', 'A_no_final_newline', 'A_empty_text',
                 'A_family_line_based', 'A_family_cached', 'A_run_transformer', 'A_write_to_spooled', 'A_as_file',
@@ -217,6 +217,8 @@ def plan_a(seed, tier, g):
 
 
 def plan_b(seed, tier, g):
+    if kernel.stream(seed, 'varying').random() < 0.12:
+        return plan_b_varying(seed, tier, g)
     classes = g.choice([[], ['multi'], ['seps'], ['cr'], ['multi', 'seps']])
     alpha = list(SAFE) + (MULTI if 'multi' in classes else []) + (SEPS if 'seps' in classes else []) + \
         (CR if 'cr' in classes else [])
@@ -273,6 +275,17 @@ def plan_b(seed, tier, g):
     return {'format': 1, 'property': PROPERTY, 'engine': 'c14', 'run_seed': seed, 'tier': tier, 'workload': 'B',
             'knobs': {'mem_buff_size': knobs[0]}, 'knob_list': knobs, 'entry': 'cli', 'T': T, 'matcher': m,
             'classes': classes, 'sweep': False, 'pre': pre}
+
+
+def plan_b_varying(seed, tier, g):
+    """The actual text is the output of a transformer program (`-transformed-by run`, evaluated lazily) that writes something else every time it is started (first line
+    `v<n>` in its n-th run): however the matcher is written - M, identity, ( M && M ), ( M || M ) - every part of it
+    must see the text of ONE run, the first.  M = 'some line is v1'."""
+    T = ''.join(g.choice(SAFE) for _ in range(g.choice([0, 1, 5, 20])))
+    knobs = g.sample([1, 3, 8, 64, 8192], 2)
+    return {'format': 1, 'property': PROPERTY, 'engine': 'c14', 'run_seed': seed, 'tier': tier, 'workload': 'B',
+            'knobs': {'mem_buff_size': knobs[0]}, 'knob_list': knobs, 'entry': 'cli', 'T': T,
+            'matcher': {'kind': 'first_invocation'}, 'classes': [], 'sweep': False, 'pre': [], 'varying': True}
 
 
 # ----------------------------------------------------------------------------- execute A
@@ -516,6 +529,8 @@ def _matcher_syntax(m, w):
         return 'every line : contents matches a'
     if k == 'grep_num_lines':
         return '-transformed-by grep a num-lines == %d' % m['n']
+    if k == 'first_invocation':
+        return 'any line : contents matches ^v1$'
     if k == 'equals_file':
         return 'equals -contents-of -rel-home exp.txt'
     if k == 'equals_prog':
@@ -527,12 +542,20 @@ def _matcher_syntax(m, w):
 
 def heredoc_able(text: str) -> bool:
     """Can the text be written as a here-document (whose contents are its lines, each ended by a new-line)?"""
-    return (text == '' or text.endswith('\n')) and 'EOF' not in text.split('\n') and '\r' not in text
+    # (characters that str.splitlines treats as line breaks are left to the quoted form: a here-document line that
+    # consists of such a character alone is rejected by Exactly's tokenizer with "string index out of range" - string
+    # syntax, property C09/C18, not judged here; noted in DESIGN §9.7)
+    return (text == '' or text.endswith('\n')) and 'EOF' not in text.split('\n') and '\r' not in text and \
+        not any(ch in text for ch in '\x0b\x0c\x1c\x1d\x1e\x85\u2028\u2029')
 
 
-def expected_b(plan):
+def expected_b(plan, src=None):
     T = _apply_chain(plan.get('pre') or [], translate(plan['T']))
     m = plan['matcher']
+    if m['kind'] == 'first_invocation':
+        # the text is the output of a transformer program that is started once per execution, whatever the form of the
+        # matcher: every part of the matcher sees the output of that first run
+        return True
     if m['kind'] == 'num_lines':
         return len(ref_lines(T)) == m['n']
     if m['kind'] == 'is_empty':
@@ -552,6 +575,9 @@ def execute_b(plan, scratch):
     T, m = plan['T'], plan['matcher']
     w.write('home/actual.txt', data=T.encode('utf-8'))
     procs = {'actprog': {'exit': 0, 'stdout': T}, 'atc': {'exit': 0, 'stdout': T}, 'cat': {'cat': True, 'exit': 0}}
+    if plan.get('varying'):
+        # a transformer program that writes something else every time it is started (and does not read its stdin)
+        procs['varyprog'] = {'exit': 0, 'stdout': 'v{n}\n' + T, 'varying': True}
     pre = plan.get('pre') or []
     if 'other' in m:
         w.write('home/exp.txt', data=m['other'].encode('utf-8'))
@@ -567,6 +593,8 @@ def execute_b(plan, scratch):
                   'oror': '( %s || %s )' % (M, M)}[wrap]
             if pre:
                 mm = '-transformed-by ' + _chain_syntax(pre) + ' ' + mm
+            if plan.get('varying'):
+                mm = '-transformed-by run % varyprog\n  ' + mm
             if src == 'file':
                 instr = 'contents -rel-home actual.txt : ' + mm
             elif src == 'prog':
@@ -587,6 +615,8 @@ def execute_b(plan, scratch):
                 sim_seconds += sim.clock.advanced
     hist = {'results': results, 'texts': texts, 'digest': kernel.digest(events), 'sim_seconds': sim_seconds}
     pr = {'B_family': 1}
+    if plan.get('varying'):
+        pr['B_actual_from_a_program_that_varies'] = 1
     if m['kind'] == 'equals_file':
         pr['B_equals_file_vs_file'] = 1
     if m['kind'] == 'equals_prog':
@@ -678,6 +708,11 @@ def oracle(plan, hist):
         return V
     if plan['workload'] == 'B':
         want = expected_b(plan)
+        if plan.get('varying'):
+            wrong = {k: v for k, v in hist['results'].items() if v['exit'] != (0 if expected_b(plan, k.split('/')[0]) else 32)}
+            if wrong:
+                bad('B.every_part_of_a_matcher_sees_the_same_run_of_the_program', 'PASS in every form', {k: (v['ident'], v['err'][:120]) for k, v in sorted(wrong.items())[:6]})
+            return V
         wrong = {k: v for k, v in hist['results'].items() if v['exit'] != (0 if want else 32)}
         if wrong:
             verdicts = sorted({v['ident'] for v in hist['results'].values()})
